@@ -21,7 +21,7 @@ const PEER: u32 = 2;
 pub fn def() -> PropDef {
     PropDef {
         id: "C14",
-        level: "exploration",
+        level: "fault_enumeration",
         rule: "(enumerated-cuts) for 1..3 messages handed over back to back: every single fault position - cut before / after the k-th request frame, cut before / after the k-th reply frame, 1..3 refused connection attempts before the first / after each cut - and every pair of such positions (exhaustive over this small space; the case index is mapped onto it). (random-faults) proptest tape -> op sequence over one real ReliableSender and one peer: send (1..12 unique messages), drop a kept handle, sleep (0 .. several back-off periods), refuse the next k connects, cut the connection now / before or after an upcoming frame in either direction, peer down (listener closed, connections cut) and up again, replies delayed; rarely an outage longer than 65 536 back-off periods (virtual time makes it cheap). After the faults end the peer is up and 70 virtual seconds pass (back-off is capped at 60 s). Oracle: every message whose handle is kept was delivered at least once and its handle resolved with exactly reply(m) = 'R:'+m, not before that reply was delivered to the sender; first deliveries are in hand-over order; no frame carrying m is written in an instant after the one in which m's handle was dropped; no handle resolves with another message's reply; the sender's tasks do not panic. Non-trivial: a connection failure happened while >= 1 message was sent but unacknowledged; distinct by op-sequence hash.",
         assumptions: &[
             "a cut is a connection reset at a frame boundary (frames are atomic on the in-memory transport); both endpoints notice it at their next read/write",
